@@ -595,7 +595,8 @@ static void quiet_full_read(const char* who, bool twice) {
 // One execution = one VARIANT (first PROG choice of the suite) + the program choices of its scenario + the environment's answers.
 // variant "<scenario>:<pool>:<fie|rng>:ru<4|8>:s<size>[,<size>...]:a<1|2>:y<classes>"
 //   scenario  rr        two concurrent readers on a cold cache
-//             re<c|w|r|a><1|2|3|4>  reader, evictor, reader (3 start orders) on a cold / warm (whole file cached) cache /
+//             re<c|w|p|P|r|a><1|2|3|4>  reader, evictor, reader (3 start orders) on a cold / warm (whole file cached) / partly warm
+//                       (p: only the first refill unit cached, P: only the last) cache /
 //                       warm media reused by a new pool with sync scan / with async scan;
 //                       evictor: 1 pool->evict(file), 2 fills the pool through /b, 3 lets 300 s pass (pool timer, store TTL),
 //                       4 prefetches the whole file (fadvise WILLNEED)
@@ -619,6 +620,8 @@ static const Suite SUITES[] = {
         "rew3:cap1:fie:ru4:s8193:a1:y012f",
         "rew4:cap1:fie:ru4:s8193:a1:y02f",
         "rea1:cap1:fie:ru4:s8193:a1:y023f",
+        "rep1:cap1:fie:ru4:s8193:a1:y02f",
+        "reP1:big:rng:ru4:s8193:a1:y02f",
     }},
     {"seq-q", {
         "sq:cap1:fie:ru4:s8193:a1:yf",
@@ -650,6 +653,10 @@ static const Suite SUITES[] = {
         "rew3:disk:rng:ru4:s8193:a1:y012f",
         "rew3:quota:fie:ru4:s8193:a1:y012f",
         "rew4:cap1:fie:ru4:s8193:a2:y012f",
+        "rep1:cap1:fie:ru4:s8193:a2:y012f",
+        "reP1:cap1:rng:ru4:s12288:a2:y012f",
+        "rep2:cap1:rng:ru4:s8193:a1:y02f",
+        "rep3:cap1:fie:ru4:s8193:a1:y02f",
         "rec4:big:rng:ru8:s8193:a1:y012f",
         "rec4:cap0:fie:ru4:s4097:a1:y02f",
     }},
@@ -709,6 +716,13 @@ void pmc_run(const char* config) {
         for (int i = 0; i < 2; i++) { w.actors[i].role = 'R'; w.actors[i].fid = 0; w.actors[i].spec = choose_spec(0, i ? "reader 2 range" : "reader 1 range"); }
         run_actors({0, 1});
     } else if (w.family.size() == 4 && w.family[0] == 'r' && w.family[1] == 'e') {
+        if (w.family[2] == 'p' || w.family[2] == 'P') {        // partly warm: only the first / only the last refill unit is cached
+            bool q = w.quiet; w.quiet = true;
+            IFile* f = w.cfs->open(w.fname[0].c_str(), O_RDONLY);
+            if (!f) pmc_violation("open-failed", "W: open failed, errno %d", errno);
+            checked_read(f, 0, w.family[2] == 'p' ? RSpec{0, 1, 0} : RSpec{w.fsize[0] - 1, 1, 0}, "W");
+            delete f; w.quiet = q;
+        } else
         if (w.family[2] != 'c') quiet_full_read("W", false);
         if (w.family[2] == 'r' || w.family[2] == 'a') {       // the actors meet a NEW pool on the media left by the old one (sync / async scan)
             delete w.cfs; w.cfs = nullptr;
